@@ -23,7 +23,10 @@ import (
 )
 
 var sigModes = []string{"", "verify", "verify_log", "none"}
-var kinds = []string{"resolvable", "signer-unknown", "signature-wrong"}
+
+// "content-replaced": another tbsCertList under the signatureValue (and algorithm) of the last genuine
+// CRL of the issuer, bit for bit
+var kinds = []string{"resolvable", "signer-unknown", "signature-wrong", "content-replaced"}
 var intakes = []string{"provision-crl_urls", "provision-crl_files", "first-cdp-active", "first-cdp-background", "cdp-retry-active", "cdp-retry-background", "periodic-refresh", "refresh-after-restart", "restart-alone"}
 var backends = []string{"memory", "disk"}
 
@@ -48,6 +51,7 @@ type cellEnv struct {
 	rng     *rand.Rand
 	scratch string
 	n       int
+	lastSig []byte // signatureValue of the most recent genuine CRL built
 }
 
 // build makes version v (0 or 1) of a CRL of the given kind; returns DER and the listed serials.
@@ -65,6 +69,18 @@ func (e *cellEnv) build(kind string, base []crlgen.Entry, extra *big.Int) []byte
 	}
 	b := s.Build(signer.Key)
 	doc := b.DER
+	if kind == "resolvable" {
+		e.lastSig = b.Sig
+	}
+	if kind == "content-replaced" {
+		sig := e.lastSig
+		if sig == nil {
+			sig = gen.SpecFor(e.w.Int, base).Build(signer.Key).Sig
+		}
+		s2 := gen.SpecFor(e.w.Int, append(append([]crlgen.Entry(nil), entries...), crlgen.Entry{Serial: gen.SerialOfWidth(e.rng, 11, false), Date: gen.BaseTime}))
+		tbs2, _ := s2.TBS()
+		doc = crlgen.Assemble(tbs2, s2.Alg.AlgID(), sig)
+	}
 	if kind == "signature-wrong" {
 		doc = append([]byte(nil), doc...)
 		doc[len(doc)-1] ^= 0x01
@@ -74,7 +90,7 @@ func (e *cellEnv) build(kind string, base []crlgen.Entry, extra *big.Int) []byte
 
 func main() {
 	run := report.New("C16", "exploration")
-	run.Rule("cells = signature mode{unset,verify,verify_log,none} x CRL{signer resolvable, signer unknown, signature wrong} x intake{configured crl_urls at provision, configured crl_files at provision, first CDP fetch active, first CDP fetch background, CDP fetch retried after a failed first download (active / background), periodic refresh of an accepted CRL, refresh after restart, restart alone} x backend (216 cells, all run); plus restarts under a stricter mode and with the trusted signer removed; each cell is a stepped history observed through strict probes / listed-serial probes / the Provision error; oracle: unset == verify; verify => in force iff resolvable and valid, on every path and after restart; verify_log/none => every parseable CRL in force, Provision succeeds, refresh brings new entries into force; non-trivial = cell whose decisive probe was reached; distinct = cell")
+	run.Rule("cells = signature mode{unset,verify,verify_log,none} x CRL{signer resolvable, signer unknown, signature wrong, content replaced under the signature of the genuine CRL in force} x intake{configured crl_urls at provision, configured crl_files at provision, first CDP fetch active, first CDP fetch background, CDP fetch retried after a failed first download (active / background), periodic refresh of an accepted CRL, refresh after restart, restart alone} x backend (288 cells, all run); plus restarts under a stricter mode and with the trusted signer removed; each cell is a stepped history observed through strict probes / listed-serial probes / the Provision error; oracle: unset == verify; verify => in force iff resolvable and valid, on every path and after restart; verify_log/none => every parseable CRL in force, Provision succeeds, refresh brings new entries into force; non-trivial = cell whose decisive probe was reached; distinct = cell")
 	run.Assume("'signer unknown' = CRL under the issuer's name whose AKI names and whose signature is made by a sibling key that is neither in the chain nor configured; 'signature wrong' = last signature bit flipped", "unavailable origin = HTTP 500")
 	scratch, _ := report.Scratch("C16")
 	sut.QuietStderr(filepath.Join(scratch, "stderr.log"))
